@@ -65,6 +65,7 @@ type randomWorkload struct {
 	prevRes  map[string]string
 	quiet    bool
 	provs    []*rig.Account
+	extraProvs []*rig.Account // further providers of the random service (one of them disabled after binding)
 	setup    int
 	pending  []svcBatch
 	usedThis map[string]bool
@@ -80,6 +81,9 @@ func (w *randomWorkload) Genesis(codec.Codec, map[string]json.RawMessage) {}
 func (w *randomWorkload) Attach(run *ev.Run, r *rig.Rig) {
 	w.run, w.r = run, r
 	w.provs = []*rig.Account{r.Acc(0), r.Acc(1)}
+	if len(r.Accounts) >= 6 {
+		w.extraProvs = []*rig.Account{r.Acc(2), r.Acc(3)}
+	}
 }
 
 func (w *randomWorkload) snapshot(ctx sdk.Context) *rndSnap {
@@ -119,9 +123,21 @@ func (w *randomWorkload) Next(block int) []rig.Tx {
 		return []rig.Tx{r.Mk(r.Acc(0), &rndTag{Kind: "setup"}, svcDefine(r.Acc(0), servicetypes.RandomServiceName, servicetypes.RandomServiceSchemas))}
 	case 1:
 		w.setup++
-		return []rig.Tx{
+		txs := []rig.Tx{
 			r.Mk(w.provs[0], &rndTag{Kind: "setup"}, svcBind(w.provs[0], servicetypes.RandomServiceName, "2stake", 100000, 5)),
 			r.Mk(w.provs[1], &rndTag{Kind: "setup"}, svcBind(w.provs[1], servicetypes.RandomServiceName, "3stake", 100000, 5)),
+		}
+		// two more bindings, one of which is disabled in the next block: the provider of an oracle-seeded request is
+		// drawn among several bindings of which not all are available
+		for _, p := range w.extraProvs {
+			txs = append(txs, r.Mk(p, &rndTag{Kind: "setup"}, svcBind(p, servicetypes.RandomServiceName, "2stake", 100000, 5)))
+		}
+		return txs
+	case 2:
+		w.setup++
+		if len(w.extraProvs) > 0 {
+			p := w.extraProvs[0]
+			return []rig.Tx{r.Mk(p, &rndTag{Kind: "setup"}, &servicetypes.MsgDisableServiceBinding{ServiceName: servicetypes.RandomServiceName, Provider: p.Addr.String(), Owner: p.Addr.String()})}
 		}
 	}
 	// answer outstanding seed requests (some are deliberately left to time out or answered with an error / by the wrong provider)
